@@ -29,6 +29,8 @@ def unions():
         [RA, RB, RC, "null"], [RB, RA], [RA, {"type": "map", "values": "int"}], [{"type": "map", "values": "int"}, RA],
         [{"type": "array", "items": "int"}, {"type": "map", "values": "string"}, "null"], [FX, "bytes"], ["bytes", FX],
         [RA, EN, FX, "int"], ["null", RC],
+        # primitives spelled as objects
+        [{"type": "null"}, "string"], [{"type": "string"}, {"type": "null"}, "int"], [{"type": "int"}, "null", {"type": "double"}],
     ]
     # the same with by-name references (types defined earlier in an enclosing record)
     holder = {"type": "record", "name": "Holder", "fields": [
